@@ -101,13 +101,150 @@ func one(kind, strategy string, iter int) {
 	s.Emit(map[string]any{"id": 9, "v": 1})
 }
 
+// general-path direct queries (no predicate / projection shortcut applies): Emit and EmitSync evaluate the
+// same compiled WHERE and SELECT programs on different goroutines (C05: both API paths; C18: concurrent EmitSync).
+var directQueries = map[string]string{
+	"d-paren":  "SELECT id, v + 1 AS e FROM stream WHERE (v > 0 AND id >= 0) OR k = 'zz'",
+	"d-like":   "SELECT id, upper(k) AS u FROM stream WHERE k LIKE 'a%b' OR k LIKE '_'",
+	"d-nested": "SELECT id, d.x AS x FROM stream WHERE d.x >= 0 AND v != 4",
+	"d-null":   "SELECT * FROM stream WHERE missing IS NULL AND v > 1",
+	"d-case":   "SELECT id, CASE WHEN v > 3 THEN 'hi' ELSE 'lo' END AS c FROM stream WHERE abs(v) > 2",
+	"d-field":  "SELECT id, k FROM stream WHERE nosuch > 3 OR v >= 2",
+}
+
+func directRow(p, i int) map[string]any {
+	return map[string]any{"id": p*100 + i, "k": []string{"a", "b", "axb"}[i%3], "v": i + 1, "d": map[string]any{"x": i - 1}}
+}
+
+// direct runs 2 Emit producers and 2 EmitSync callers on one instance; every EmitSync result must equal
+// the result a fresh instance gives for the same row sequentially, and the sink must see exactly the
+// Emit rows that pass.
+func direct(kind string, iter int) {
+	mk := func() *streamsql.Streamsql {
+		s := streamsql.New(streamsql.WithLogger(logger.NewDiscardLogger()))
+		if err := s.Execute(directQueries[kind]); err != nil {
+			fmt.Println("EXECUTE ERROR", kind, err)
+			os.Exit(3)
+		}
+		return s
+	}
+	ref := mk()
+	want := map[int]string{}
+	for p := 0; p < 4; p++ {
+		for i := 0; i < 6; i++ {
+			r, err := ref.EmitSync(directRow(p, i))
+			want[p*100+i] = fmt.Sprint(r, err)
+		}
+	}
+	ref.Stop()
+	s := mk()
+	var mu sync.Mutex
+	got := map[int]string{}
+	s.AddSyncSink(func(rows []map[string]any) {
+		mu.Lock()
+		for _, r := range rows {
+			if id, ok := r["id"].(int); ok {
+				got[id] = fmt.Sprint(r, nil)
+			}
+		}
+		mu.Unlock()
+	})
+	var wg sync.WaitGroup
+	bad := make(chan string, 64)
+	for p := 0; p < 4; p++ {
+		p := p
+		wg.Add(1)
+		go func() {
+			defer wg.Done()
+			for i := 0; i < 6; i++ {
+				if p < 2 {
+					s.Emit(directRow(p, i))
+					continue
+				}
+				r, err := s.EmitSync(directRow(p, i))
+				if g := fmt.Sprint(r, err); g != want[p*100+i] {
+					select {
+					case bad <- fmt.Sprintf("%s: EmitSync(%v) = %s, sequentially %s", kind, directRow(p, i), g, want[p*100+i]):
+					default:
+					}
+				}
+			}
+		}()
+	}
+	wg.Wait()
+	deadline := time.Now().Add(2 * time.Second)
+	for time.Now().Before(deadline) {
+		mu.Lock()
+		n := 0
+		for id := range got {
+			if id < 200 {
+				n++
+			}
+		}
+		mu.Unlock()
+		exp := 0
+		for id, w := range want {
+			if id < 200 && w != fmt.Sprint(map[string]any(nil), nil) {
+				exp++
+			}
+		}
+		if n >= exp {
+			break
+		}
+		time.Sleep(time.Millisecond)
+	}
+	s.Stop()
+	mu.Lock()
+	for id, w := range want {
+		if id >= 200 {
+			continue
+		}
+		g, ok := got[id]
+		if !ok {
+			g = fmt.Sprint(map[string]any(nil), nil)
+		}
+		if g != w {
+			select {
+			case bad <- fmt.Sprintf("%s: Emit row id=%d delivered %s, sequentially %s", kind, id, g, w):
+			default:
+			}
+		}
+	}
+	mu.Unlock()
+	close(bad)
+	fail := false
+	for b := range bad {
+		fmt.Println("WRONG RESULT UNDER CONCURRENCY:", b)
+		fail = true
+	}
+	if fail {
+		os.Exit(1)
+	}
+}
+
 func main() {
 	iters := 15
 	if len(os.Args) > 1 {
 		iters, _ = strconv.Atoi(os.Args[1])
 	}
+	prop := ""
+	if len(os.Args) > 2 {
+		prop = os.Args[2]
+	}
 	n := 0
 	start := time.Now()
+	if prop == "C05" || prop == "C18" || prop == "" {
+		for kind := range directQueries {
+			for i := 0; i < iters; i++ {
+				direct(kind, i)
+				n++
+			}
+		}
+		if prop == "C05" {
+			fmt.Printf("racepass: %d harness runs in %.1fs, no race reported\n", n, time.Since(start).Seconds())
+			return
+		}
+	}
 	for kind := range queries {
 		for _, st := range []string{"drop", "block", "expand"} {
 			for i := 0; i < iters; i++ {
